@@ -186,6 +186,33 @@ class Pat:
             return self._name(p.id, n.id, env)
         if type(p) is not type(n):
             return None
+        if isinstance(p, ast.Compare) and len(p.ops) == 1 and isinstance(p.ops[0], (ast.Eq, ast.NotEq)) and len(n.ops) == 1 and type(n.ops[0]) is type(p.ops[0]):
+            # == and != are symmetric: accept either operand order (the analysed tree is in canonical order anyway)
+            e1 = self._m(p.left, n.left, dict(env))
+            if e1 is not None:
+                e1 = self._m(p.comparators[0], n.comparators[0], e1)
+            if e1 is not None:
+                env.update(e1)
+                return env
+            e2 = self._m(p.left, n.comparators[0], dict(env))
+            if e2 is not None:
+                e2 = self._m(p.comparators[0], n.left, e2)
+            if e2 is not None:
+                env.update(e2)
+                return env
+            return None
+        if isinstance(p, ast.If) and p.orelse and n.orelse and not (len(n.orelse) == 1 and isinstance(n.orelse[0], ast.If)):
+            # `if c: A else: B` also matches `if not c: B else: A` (canonical form has no leading `not` when there is an else)
+            e1 = self._if(p, n, dict(env))
+            if e1 is not None:
+                env.update(e1)
+                return env
+            flipped = ast.If(test=(p.test.operand if isinstance(p.test, ast.UnaryOp) and isinstance(p.test.op, ast.Not) else ast.UnaryOp(ast.Not(), p.test)), body=p.orelse, orelse=p.body)
+            e2 = self._if(flipped, n, dict(env))
+            if e2 is not None:
+                env.update(e2)
+                return env
+            return None
         if isinstance(p, ast.Constant):
             return env if (type(p.value) is type(n.value) and p.value == n.value) else None
         if isinstance(p, ast.Call):
@@ -285,6 +312,15 @@ class Pat:
                 return None
         return env
 
+    def _if(self, p, n, env):
+        env = self._m(p.test, n.test, env)
+        if env is None:
+            return None
+        env = self._body(p.body, n.body, env)
+        if env is None:
+            return None
+        return self._body(p.orelse, n.orelse, env)
+
     def _subseq(self, ps, ns, env):
         """ps occur in order within ns"""
         if not ps:
@@ -323,3 +359,19 @@ def one(node, pattern, env=None):
 
 def count(node, pattern, env=None):
     return len(pat(pattern).search(node, env))
+
+
+def arms(if_node, cond, env=None):
+    """(statements run when ``cond`` holds, statements run when it does not, env) for an ``if`` whose test is ``cond`` or
+    ``not cond`` — whichever way round the author (or the canonical form) wrote it; None when the test is neither."""
+    if not isinstance(if_node, ast.If):
+        return None
+    m = pat(cond).matches(if_node.test, env)
+    if m is not None:
+        return if_node.body, if_node.orelse, m.env
+    t = if_node.test
+    if isinstance(t, ast.UnaryOp) and isinstance(t.op, ast.Not):
+        m = pat(cond).matches(t.operand, env)
+        if m is not None:
+            return if_node.orelse, if_node.body, m.env
+    return None
